@@ -17,14 +17,14 @@ RULE = ("Histories of 1-10 operations (add / update / disable / enable / move / 
         "definitions from the forms the property lists (header with string values, exists/notexists, size, envelope with "
         "lists, address with strings or lists, body :raw/:text, currentdate with and without :value, negated variants, 1-3 "
         "conditions, anyof/allof; actions with positional strings and value-less tags), values over text with commas, "
-        "spaces, brackets and non-ASCII. After every step every filter is read back, on the live set, while disabled and "
+        "spaces, brackets, quotes, backslashes, control characters and non-ASCII; one operation in six is preceded by an add the factory refuses. After every step every filter is read back, on the live set, while disabled and "
         "after a restart. The value half is plain seeded generation. Non-trivial: a value with comma/space/bracket/non-ASCII, "
         "a negated condition, a disabled filter or a restart was involved. Distinct = (condition kinds incl. negation, "
         "action kinds, value classes, disabled?, restarted?).")
 COMPONENTS = {"real": ["sievelib.factory.FiltersSet (add/update/get_filter_*)", "sievelib.commands args_as_tuple", "sievelib.parser.Parser (restart)"],
               "stub": []}
 ASSUMPTIONS = ["numbers compare as their text (a reloaded size limit is text); list and tuple are the same thing at any level",
-               "values contain no double quote, backslash or newline (C06's alphabet) and do not start with a quote"]
+               "values do not start with a quote or (in actions) a colon; control characters, quotes, backslashes and newlines are included"]
 
 NAMES = ["alpha", "beta", "gamma", "delta"]
 
@@ -125,6 +125,14 @@ def run(ch, config, res):
             op = ["add", "update", "disable", "enable", "move", "remove", "restart"][k]
             n = NAMES[wl.int("name", len(NAMES))]
             label = "op %d %s(%s)" % (i, op, n)
+            if wl.flag("refused_first", 1, 6):
+                # an add the factory refuses (see simkit.editor.BAD_DEFS), on a name that is not in use
+                bconds_, bacts_, bmt_ = E.bad_definition(wl, "baddef")
+                rr = E.classify(lambda: (fs.addfilter("never-added", bconds_, bacts_, bmt_), True)[1])
+                res.count("refused_builds")
+                if rr[0] == "ok":
+                    res.count("ended:unsupported-description-accepted")
+                    break
             if op in ("add", "update"):
                 struct, values = E.gen_definition(wl, "def", "c19")
                 conds, acts, mt = E.fill(struct, values)
